@@ -1,7 +1,7 @@
 (** Soundness of the validator: code it accepts simulates the reference semantics. *)
 From Coq Require Import List ZArith Bool Arith Lia Floats.SpecFloat.
 From RB Require Import Generated.Tables Val.Variant Val.Arith2 Lang.Ast Lang.Sem VM.Instr VM.Gen VM.Machine VM.GenProofs
-                       VM.Loops VM.Branch VM.DoLoops VM.Validate RT.Printer.
+                       VM.Loops VM.ForLoops VM.Branch VM.DoLoops VM.Validate RT.Printer.
 Import ListNotations.
 Local Open Scope nat_scope.
 
@@ -120,6 +120,28 @@ Proof.
       inversion Hb; subst. apply simulates_cons; [apply IH; exact E1|apply IHl; exact E2]. }
   cbn [check_stmt] in H. fold (Validate.check_block k code) in H.
   destruct s as [p n e|p args|p c thn elifs els|p c body|p top until c body|p v lo hi step body|p e cases els]; try discriminate.
+  6:{ (* FOR *)
+      destruct (etype lo) as [tlo|] eqn:Etlo; [|discriminate]. destruct (etype hi) as [thi|] eqn:Ethi; [|discriminate].
+      destruct step as [se|].
+      - destruct (etype se) as [tse|] eqn:Etse; [|discriminate].
+        match type of H with match ?cb with Some _ => _ | None => _ end = _ => destruct cb as [lb|] eqn:Eb; [|discriminate] end.
+        match type of H with (if ?cnd then _ else _) = _ => destruct cnd eqn:E; [|discriminate] end.
+        inversion H; subst len. clear H.
+        repeat (apply andb_true_iff in E; destruct E as [E ?]).
+        intros f. apply (for_step_correct num_text is_negative code pc p v lo hi se body lb); try congruence.
+        + unfold for_step_layout. repeat split;
+            first [apply slice_is_code_at; assumption | apply is_label_at_nth; assumption | apply instr_at_nth; assumption
+                  | apply slice_is_code_at; unfold slice_is; apply andb_true_iff; split; assumption].
+        + intros f0. apply B. exact Eb.
+      - match type of H with match ?cb with Some _ => _ | None => _ end = _ => destruct cb as [lb|] eqn:Eb; [|discriminate] end.
+        match type of H with (if ?cnd then _ else _) = _ => destruct cnd eqn:E; [|discriminate] end.
+        inversion H; subst len. clear H.
+        repeat (apply andb_true_iff in E; destruct E as [E ?]).
+        intros f. apply (for_correct num_text is_negative code pc p v lo hi body lb); try congruence.
+        + unfold for_layout. repeat split;
+            first [apply slice_is_code_at; assumption | apply is_label_at_nth; assumption | apply instr_at_nth; assumption
+                  | apply slice_is_code_at; unfold slice_is; apply andb_true_iff; split; assumption].
+        + intros f0. apply B. exact Eb. }
   5:{ (* DO *)
       destruct top.
       - destruct (Validate.check_block k code body (S pc + length (gen_expr c ++ (if until then [(INot, p)] else [])) + 1)) as [lb|] eqn:Eb; [|discriminate].
